@@ -92,21 +92,27 @@ Qed.
 
 Definition la : str := [x61].
 
+(** The witnesses are written over the regenerated constants (a lock timeout 35 s above MinRenewSeconds, advances of
+    one renew interval), so that they stay witnesses when the constants of the source change in a way that keeps the
+    property. [wT] is 45 and [interval wT] is 15 with the constants of the unmodified source. *)
+Definition wT : Z := client_MinRenewSeconds + 35.
+Definition wI : Z := interval wT * second.
+
 (** F-STOPDROP: Unlock while the renewer has left the select (its Renew is kept before the server). The Stop() is
     dropped; the Renew of the unlocked hold reaches the server after Unlock has returned, fails, and the goroutine panics. *)
 Definition stopdrop_witness : list item :=
-  [ILock la 45 1; IHold 0 StPre; IAdvance (15 * second); IUnlock 0; IStep 0].
+  [ILock la wT 1; IHold 0 StPre; IAdvance wI; IUnlock 0; IStep 0].
 
 (** the same with the Renew kept after the server: the renewer survives, sends another Renew one interval later *)
 Definition stopdrop_witness_post : list item :=
-  [ILock la 45 1; IHold 0 StPost; IAdvance (15 * second); IUnlock 0; IStep 0; IAdvance (20 * second)].
+  [ILock la wT 1; IHold 0 StPost; IAdvance wI; IUnlock 0; IStep 0; IAdvance (wI + second)].
 
 (** F-RENEWMAP: two auto-renewed holds of one counting lock *)
-Definition renewmap_witness : list item := [ILock la 45 2; ILock la 45 2].
+Definition renewmap_witness : list item := [ILock la wT 2; ILock la wT 2].
 
 (** its quiet form: the second hold has no lock timeout; unlocking it stops the FIRST hold's renewer *)
 Definition renewmap_witness_quiet : list item :=
-  [ILock la 45 2; ILock la 0 2; IUnlock 1; IAdvance (100 * second)].
+  [ILock la wT 2; ILock la 0 2; IUnlock 1; IAdvance (3 * wT * second)].
 
 Definition cc_auto : ccfg := CCfg false 0.
 
@@ -142,15 +148,17 @@ Lemma renewmap_witness_quiet_facts :
   excluded_renewmap cc_auto renewmap_witness_quiet = true ∧
   timely cc_auto 0 renewmap_witness_quiet = true ∧
   cs_crashed (run cc_auto renewmap_witness_quiet) = None ∧
-  (∃ h, cs_holds (run cc_auto renewmap_witness_quiet) !! 0%nat = Some h ∧ h_locked h = true ∧ h_unl h = false ∧ h_T h = 45) ∧
+  (∃ h, cs_holds (run cc_auto renewmap_witness_quiet) !! 0%nat = Some h ∧ h_locked h = true ∧ h_unl h = false ∧ h_T h = wT) ∧
   lease_ok (run cc_auto renewmap_witness_quiet) 0 = false.
 Proof.
   vm_compute. repeat split; try reflexivity. eexists. repeat split; reflexivity.
 Qed.
 
-(** a lock timeout of at most MinRenewSeconds: the lease is over before the first renew, which then fails *)
+(** a lock timeout of at most MinRenewSeconds: the lease is over by the first renew, which then fails *)
+Definition short_witness : list item :=
+  [ILock la client_MinRenewSeconds 1; IAdvance (interval client_MinRenewSeconds * second)].
 Lemma short_timeout_crashes :
-  cs_crashed (run cc_auto [ILock la 5 1; IAdvance (10 * second)]) = Some (CrRenewFailed 0).
+  cs_crashed (run cc_auto short_witness) = Some (CrRenewFailed 0).
 Proof. vm_compute. reflexivity. Qed.
 
 (** * The refutations in the form Properties/C19.v states them *)
@@ -189,9 +197,12 @@ Qed.
     the server within the slack, idle for many lease lengths, one hold unlocked while its renewer sleeps *)
 Definition lb : str := [x62].
 Definition lc : str := [x63].
+Definition gT0 : Z := client_MinRenewSeconds + 1.
+Definition gT1 : Z := client_MinRenewSeconds + 80.
+Definition gT2 : Z := client_MinRenewSeconds + 21.
 Definition good_witness : list item :=
-  [ILock la 11 1; ITryLock lb 90 1; ILock lc 31 1;
-   IHold 0 StBoth; IAdvance (10 * second + 300000000); IStep 0; IAdvance 200000000; IStep 0;
+  [ILock la gT0 1; ITryLock lb gT1 1; ILock lc gT2 1;
+   IHold 0 StBoth; IAdvance (interval gT0 * second + 300000000); IStep 0; IAdvance 200000000; IStep 0;
    IAdvance (400 * second); IProbe; ICompete la 1;
    IUnlock 1; IAdvance (200 * second); IProbe].
 
